@@ -37,6 +37,8 @@ CONTEXTS = [
     "[+|({}", "λ⟨{}", "(ƛ{}",
     # the literal is the LAST token of its branch / program after a modifier
     "v{}", "[1|v{}]2", "(n⁽{})3", "λ~{};", "₍+{}", "⟨+|ß{}⟩",
+    # the literal is a modifier's operand and an X / x follows LATER in the same branch (what that X / x refers to is part of the shape)
+    "(v{}X", "(v{}x)", "λß{}X;", "(&{}+x", "{{v{}X|+}}", "(1[~{}X])", "(₌{}+X", "(₌+{}x", "λ⁽{}X;", "(‡{}+X)", "@f|v{}X;", "⟨v{}X|+⟩",
     # the literal is followed, later in the program, by closers and another comment (text that could pair up with a payload)
     "{}(+)#a\n", "{}{{+|+}}#a\n", "{}[+]#a\n+", "{}⟨+⟩#a\n", "{}λ+;#a\n", "1{}\n{{:|‹}}# z\n_",
 ]
